@@ -167,8 +167,9 @@ def main(argv):
             broken_obl.append("theorem %s: axioms %s" % (t, ax))
     if binfo.get("forbidden"):
         broken_obl.append("forbidden construct in Lean sources: " + "; ".join(binfo["forbidden"][:3]))
-    if binfo.get("extract_fail"):
-        broken_obl.append("extractor: " + "; ".join(binfo["extract_fail"][:3]))
+    xf = props.extract_failures_for(prop, binfo.get("extract_fail") or [])
+    if xf:
+        broken_obl.append("extractor: " + "; ".join(xf[:3]))
     if binfo.get("go_fail"):
         broken_obl.append("go build: " + "; ".join(binfo["go_fail"][:2]))
 
